@@ -107,14 +107,14 @@ Section Rel.
   Proof.
     split.
     - intros [|f] fwd [p G] r Hx E; [discriminate|]. cbn in E. inversion E; subst. constructor; [exact Hx|constructor].
-    - intros lb fwd s Es. discriminate Es.
+    - intros fwd s Es. discriminate Es.
   Qed.
 
   Lemma al_fails : al make_always_fails.
   Proof.
     split.
     - intros [|f] fwd [p G] r Hx E; [discriminate|]. cbn in E. inversion E; subst. constructor.
-    - intros lb fwd s Es. cbn in Es. inversion Es; subst. intros q q' _ E. cbn in E. discriminate E.
+    - intros fwd s Es. cbn in Es. inversion Es; subst. intros q q' _ E. cbn in E. discriminate E.
   Qed.
 
   (* ---- unfolding equations (ir_results destructs its state argument first) ---- *)
